@@ -466,11 +466,31 @@ func runPathHistory(name string, p *pool, ops []pOp) (res []string, evs []string
 			res = append(res, fmt.Sprintf("PRStats %d %d", st.Inserted, st.Updated))
 			stats[fmt.Sprintf("p-insert:%d/%d", st.Inserted, st.Updated)]++
 		case "delete":
+			// DeleteSegment returns no count: the post-state is observed by counting the
+			// stored segments (distinct ids of an unfiltered Get) before and after the call.
+			countSegs := func() int {
+				rs, err := b.Get(ctx, nil)
+				if err != nil {
+					errs = append(errs, fmt.Sprintf("op %d count: %v", i, err))
+				}
+				ids := map[string]bool{}
+				for _, x := range rs {
+					ids[string(x.Seg.ID())] = true
+				}
+				return len(ids)
+			}
+			before := countSegs()
 			if err := b.DeleteSegment(ctx, o.Prefix); err != nil {
 				errs = append(errs, fmt.Sprintf("op %d delete: %v", i, err))
 			}
+			gone := before - countSegs()
 			evs = append(evs, "PDelete "+prefixT(o.Prefix))
-			res = append(res, "PRUnit")
+			res = append(res, fmt.Sprintf("PRDeleted %d", gone))
+			if gone > 0 {
+				stats["p-delete:nonzero"]++
+			} else {
+				stats["p-delete:zero"]++
+			}
 		case "expire":
 			n, err := b.DeleteExpired(ctx, time.Unix(o.Now, 0))
 			if err != nil {
@@ -657,11 +677,26 @@ func runBeaconHistory(name string, p *pool, ops []bOp) (res []string, evs []stri
 			res = append(res, fmt.Sprintf("BRStats %d %d", st.Inserted, st.Updated))
 			stats[fmt.Sprintf("b-insert:%d/%d", st.Inserted, st.Updated)]++
 		case "delete":
+			// DeleteBeacon returns no count: rows of an unfiltered GetBeacons before and after.
+			countRows := func() int {
+				rs, err := b.GetBeacons(ctx, nil)
+				if err != nil {
+					errs = append(errs, fmt.Sprintf("op %d count: %v", i, err))
+				}
+				return len(rs)
+			}
+			before := countRows()
 			if err := b.DeleteBeacon(ctx, o.Prefix); err != nil {
 				errs = append(errs, fmt.Sprintf("op %d delete: %v", i, err))
 			}
+			gone := before - countRows()
 			evs = append(evs, "BDelete "+prefixT(o.Prefix))
-			res = append(res, "BRUnit")
+			res = append(res, fmt.Sprintf("BRDeleted %d", gone))
+			if gone > 0 {
+				stats["b-delete:nonzero"]++
+			} else {
+				stats["b-delete:zero"]++
+			}
 		case "expire":
 			n, err := b.DeleteExpiredBeacons(ctx, time.Unix(o.Now, 0))
 			if err != nil {
@@ -681,7 +716,7 @@ func runBeaconHistory(name string, p *pool, ops []bOp) (res []string, evs []stri
 			}
 			evs = append(evs, fmt.Sprintf("BCandidates %d %d %s", o.N, o.Usage, iaT(o.Src)))
 			res = append(res, "BRCands "+vgen.ListOf(bs, func(x beacon.Beacon) string {
-				return fmt.Sprintf("(%s, %d)", p.bidT(x.Segment.ID()), p.payOf(x.Segment))
+				return fmt.Sprintf("(%s, %d, %d)", p.bidT(x.Segment.ID()), p.payOf(x.Segment), x.InIfID)
 			}))
 			switch {
 			case len(bs) == 0:
